@@ -121,10 +121,17 @@ public:
       if (o->heap) {Bad("a heap-allocated copy of a pooled object was handed to the pool's RecycleObject() instead of being deleted"); o->state = 7; TLine("Recycle", ObjId(o)); return;}     // (not passed on: the pool would corrupt itself)
       if (o->state != 42) Bad("an object was recycled twice (it is not live)"); o->state = 7; TLine("Recycle", ObjId(o)); Pool3::RecycleObject(obj);}
 };
+// The trace is built from the count operations seen through the hooks in AtomicCounter.  Whether those hooks see EVERY count operation is
+// checked against the public API: at the end of each thread's program the counts they add up to must equal GetRefCount() of the objects
+// the thread still refers to (only one thread runs at a time and every operation that was logged has been executed).  If not, the trace
+// does not describe the execution (e.g. the library no longer counts through AtomicCounter) and is not given to TLC: drift, not a verdict.
+static std::map<int, long> g_derived; static bool g_traceReliable = true;
 static void ObserveResume(vs::LThread * me, int kind, const void * obj, int)
 {
-   if ((kind != vs::YIELD_ATOMIC)||(!g_record)) return;
+   if (kind != vs::YIELD_ATOMIC) return;
    std::map<const void *, int>::iterator it = g_objOfCounter.find(obj);
+   if (it != g_objOfCounter.end()) g_derived[it->second] += (me->arg > 0) ? 1 : ((me->arg < 0) ? -1 : 0);
+   if (!g_record) return;
    if (it != g_objOfCounter.end()) {char b[96]; snprintf(b, sizeof(b), "{\"e\":\"%s\",\"t\":%d,\"o\":%d}", (me->arg > 0) ? "Inc" : "Dec", me->id+1, it->second); g_lines.push_back(b);}
 }
 struct Mailbox {Mutex m; ObjRef slot;};
@@ -155,6 +162,9 @@ static void Worker(TracedPool * pool, Mailbox * mb, unsigned seed, int nOps, boo
          }
          for (int i=0; i<3; i++) {CHECK(slots[i]); if (chains) {int n = 0; for (Obj * p = slots[i](); (p)&&(n < 100); p = p->next(), n++) if (p->state != 42) {Bad("an object that is still referenced by another object's member reference was recycled (released early)"); break;}}}
       }
+#ifndef VERIF_NO_PRIVATE
+      for (int i=0; i<3; i++) if (slots[i]()) {std::map<const void *, int>::iterator it = g_objId.find(slots[i]()); if ((it != g_objId.end())&&(g_derived[it->second] != (long) slots[i]()->GetRefCount())) g_traceReliable = false;}
+#endif
       if (chains) {DECLARE_MUTEXGUARD(mb->m); mb->slot.Reset();}    // the mailbox may head a chain: empty it here, where every count operation of the cascade is observed
    }
    vs::ThreadEnd();
@@ -162,10 +172,10 @@ static void Worker(TracedPool * pool, Mailbox * mb, unsigned seed, int nOps, boo
 static int Explore(uint32 iters, int nt, int nops, uint32 seed0, const char * outFile, const char * traceFile, uint32 ntraces)
 {
    FILE * out = fopen(outFile, "w"); FILE * tf = traceFile ? fopen(traceFile, "w") : NULL;
-   long execs = 0, violated = 0, stranded = 0, traces = 0, traceLines = 0, objects = 0; unsigned long ysteps = 0;
+   long execs = 0, violated = 0, stranded = 0, traces = 0, traceLines = 0, objects = 0, unreliable = 0; unsigned long ysteps = 0;
    for (uint32 it=0; it<iters; it++) {
       const uint32 seed = seed0*1000003u+it;
-      g_viol.clear(); g_lines.clear(); g_objOfCounter.clear(); g_objId.clear(); g_record = (tf != NULL)&&(traces < (long) ntraces);
+      g_viol.clear(); g_lines.clear(); g_objOfCounter.clear(); g_objId.clear(); g_derived.clear(); g_traceReliable = true; g_record = (tf != NULL)&&(traces < (long) ntraces);
 #ifdef VERIF_NO_PRIVATE
       g_record = false;    // the trace needs the address of the private reference counter
 #endif
@@ -190,13 +200,14 @@ static int Explore(uint32 iters, int nt, int nops, uint32 seed0, const char * ou
          mj::Value va = mj::Value::Arr(); for (size_t k=0; k<g_viol.size(); k++) va.push(mj::Value::Str(g_viol[k])); rec.set("violations", va);
          if (violated <= 20) fprintf(out, "%s\n", mj::ToString(rec).c_str());
       }
-      if ((g_record)&&(ok)) {fprintf(tf, "{\"e\":\"Reset\"}\n"); for (size_t k=0; k<g_lines.size(); k++) fprintf(tf, "%s\n", g_lines[k].c_str()); traces++; traceLines += (long) g_lines.size()+1;}
+      if ((g_record)&&(ok)&&(!g_traceReliable)) unreliable++;
+      if ((g_record)&&(ok)&&(g_traceReliable)) {fprintf(tf, "{\"e\":\"Reset\"}\n"); for (size_t k=0; k<g_lines.size(); k++) fprintf(tf, "%s\n", g_lines[k].c_str()); traces++; traceLines += (long) g_lines.size()+1;}
       if (!ok) {for (size_t k=0; k<ths.size(); k++) ths[k].detach(); vs::Deactivate(); if ((stranded >= 10)||(vs::S.hung)) break;}
       else if (pool->GetNumAllocatedItemSlots() == 0) {delete mb; delete pool;}
       if (violated >= 25) break;
    }
    mj::Value sum = mj::Value::Obj(); sum.set("summary", mj::Value::Bool(true)).set("executions", mj::Value::Int(execs)).set("violated", mj::Value::Int(violated)).set("stranded", mj::Value::Int(stranded)).set("yields", mj::Value::Int((int64_t) ysteps))
-      .set("traces_written", mj::Value::Int(traces)).set("trace_lines", mj::Value::Int(traceLines)).set("objects", mj::Value::Int(objects));
+      .set("traces_written", mj::Value::Int(traces)).set("trace_lines", mj::Value::Int(traceLines)).set("objects", mj::Value::Int(objects)).set("traces_not_describing_the_execution", mj::Value::Int(unreliable));
    fprintf(out, "%s\n", mj::ToString(sum).c_str()); fclose(out); if (tf) fclose(tf); printf("%s\n", mj::ToString(sum).c_str()); fflush(stdout);
    if ((stranded > 0)||(vs::S.hung)) _exit(0);
    return 0;
